@@ -263,6 +263,11 @@ def tryfail_family(tier):
                 if len(ds) <= 3 and max(ds) > 1:
                     p = fp.build(mac, ds, flavour=fl, rich=True, wrap=True)
                     progs.append(fp.to_prog("%s/%s/%s/w" % (mac, fl, fp.pname(ds)), p, [[0]], sub=fp.fail_slots(ds)))
+                # Option branches that become None through operators which are also Option methods (filter, zip, flatten)
+                if fl == "Opt" and "async" not in mac and len(ds) <= 3 and max(ds) > 1 and (tier != "quick" or mac == "try_join" or len(ds) == 2):
+                    for fo in ("filter", "zip", "flatten"):
+                        p = fp.build(mac, ds, flavour="Opt", rich=True, failop=fo)
+                        progs.append(fp.to_prog("%s/Opt/%s/%s" % (mac, fp.pname(ds), fo), p, [[0]], sub=fp.fail_slots(ds)))
     return progs, profs, bound
 
 
@@ -524,6 +529,7 @@ def c15(tier, rep):
         runs = [(["c15", "std", 5, "join,try_join"], "21 symbols, length<=5, join/try_join"), (["c15", "full", 3, ALL8], "32 symbols (all operators, and_then, tuple let), length<=3, 8 configs"), (["c15", "opts", 6, "join,try_join_async"], "4 options + x |> , then, length<=6")]
     else:
         runs = [(["c15", "std", 6, "join,try_join"], "21 symbols, length<=6, join/try_join"), (["c15", "full", 4, ALL8], "32 symbols, length<=4, 8 configs"), (["c15", "opts", 8, "join,try_join_async"], "4 options + x |> , then, length<=8")]
+    runs.append((["c15", "lets", ALL8], "depth profiles n<=3,d<=3 x every assignment of {none, let, let mut, let ref} to the branches x handler x 8 configs"))
     classes = {}
     for args, label in runs:
         d = e1_mode(rep, exe, args, "C15", "totality")
